@@ -132,6 +132,11 @@ func (h *Hook) Uninstall() error {
 	msg := fmt.Sprintf("Uninstall hook: %s, path=%s", h.Type, h.Path())
 
 	upgradable, _, err := h.matchesCurrent()
+	if os.IsNotExist(err) {
+		// There is no such hook: nothing to remove, and no reason to
+		// leave the remaining hooks in place.
+		return nil
+	}
 	if err != nil {
 		return err
 	}
